@@ -152,6 +152,107 @@ def name_extends(culture, tokens, month, dow) -> bool:
         return True
 
 
+def fit_value(typ, tokens, v, pat, rnd):
+    """Move a random value onto what the pattern can represent: every field the pattern does not capture takes the
+    template's value and the fraction is cut to the pattern's precision (the round-trip law speaks about exactly these)."""
+    from pyoda_time import AnnualDate, Duration, LocalDate, LocalDateTime, LocalTime, Offset
+
+    has = lambda *ts: any(t in ts for t in tokens)  # noqa: E731
+    fracs = [len(t.lstrip(".;")) for t in tokens if t.lstrip(".;") and set(t.lstrip(".;")) <= {"f"} or t.lstrip(".;") and set(t.lstrip(".;")) <= {"F"}]
+    prec = max(fracs) if fracs else 0
+
+    def fit_time(t: LocalTime) -> LocalTime:
+        h, mi, sec, n = t.hour, t.minute, t.second, t.nanosecond_of_second
+        if not has("H", "HH"):
+            if has("h", "hh"):
+                h = h if has("t", "tt") else h % 12
+            else:
+                h = rnd.choice([0, 12]) if has("t", "tt") else 0
+        if not has("m", "mm"):
+            mi = 0
+        if not has("s", "ss"):
+            sec = 0
+        n -= n % 10 ** (9 - prec)
+        return LocalTime.from_hour_minute_second_nanosecond(h, mi, sec, n)
+
+    def fit_date(d: LocalDate) -> LocalDate:
+        try:
+            tpl = pat.with_calendar(d.calendar).template_value
+            tpl = tpl.date if hasattr(tpl, "date") else tpl
+        except Exception:  # noqa: BLE001
+            return d
+        y, m, dd = d.year, d.month, d.day
+        if not has("yyyy", "uuuu", "uuu", "uu", "u"):
+            y = tpl.year
+        if not has("M", "MM", "MMM", "MMMM"):
+            m = tpl.month
+        if not has("d", "dd"):
+            dd = tpl.day
+        cal = d.calendar
+        m = min(m, cal.get_months_in_year(y))
+        dd = min(dd, cal.get_days_in_month(y, m))
+        return LocalDate(y, m, dd, cal)
+
+    try:
+        if typ == "LocalTime":
+            return fit_time(v)
+        if typ == "LocalDate":
+            return fit_date(v)
+        if typ == "LocalDateTime":
+            return fit_date(v.date).at(fit_time(v.time_of_day))
+        if typ == "AnnualDate":
+            tpl = pat.template_value
+            m = v.month if has("M", "MM", "MMM", "MMMM") else tpl.month
+            d = v.day if has("d", "dd") else tpl.day
+            return AnnualDate(m, min(d, [31, 29, 31, 30, 31, 30, 31, 31, 30, 31, 30, 31][m - 1]))
+        if typ == "Offset":
+            sec = v.seconds
+            a = abs(sec)
+            hh, mm, ss = a // 3600, (a % 3600) // 60, a % 60
+            if not has("H", "HH"):
+                hh = 0
+            if not has("m", "mm"):
+                mm = 0
+            if not has("s", "ss"):
+                ss = 0
+            a = hh * 3600 + mm * 60 + ss
+            return Offset.from_seconds(-a if sec < 0 and has("+", "-") else a)
+        if typ == "Instant":
+            u = v.in_utc()
+            ldt = u.local_date_time
+            tplv = pat.template_value.in_utc().local_date_time
+            y, m, dd = ldt.year, ldt.month, ldt.day
+            if not has("yyyy", "uuuu", "uuu", "uu", "u"):
+                y = tplv.year
+            if not has("M", "MM"):
+                m = tplv.month
+            if not has("d", "dd"):
+                dd = tplv.day
+            dd = min(dd, ldt.calendar.get_days_in_month(y, m))
+            return LocalDate(y, m, dd).at(fit_time(ldt.time_of_day)).in_utc().to_instant()
+        if typ == "Duration":
+            ns = v.to_nanoseconds()
+            neg = ns < 0 and has("+", "-")
+            a = abs(ns)
+            a -= a % 10 ** (9 - prec)
+            secs, n = divmod(a, 10**9)
+            dd, hh, mm, ss = secs // 86400, (secs % 86400) // 3600, (secs % 3600) // 60, secs % 60
+            tot_d, tot_h, tot_m, tot_s = has("D", "DD"), has("H", "HH"), has("M", "MM"), has("S", "SS")
+            if not (tot_d or tot_h or tot_m or tot_s):
+                dd = 0
+            if not (tot_h or tot_m or tot_s or has("h", "hh")):
+                hh = 0
+            if not (tot_m or tot_s or has("m", "mm")):
+                mm = 0
+            if not (tot_s or has("s", "ss")):
+                ss = 0
+            a = ((dd * 24 + hh) * 60 + mm) * 60 * 10**9 + ss * 10**9 + n
+            return Duration.from_nanoseconds(-a if neg else a)
+    except Exception:  # noqa: BLE001 - the fitted fields do not form a value: keep the random one
+        return v
+    return v
+
+
 def gen(args) -> list:
     seed, npat = args
     from pyoda_time import AnnualDate, CalendarSystem
@@ -198,6 +299,8 @@ def gen(args) -> list:
             if typ in ("LocalDate", "LocalDateTime") and any(t in ("MMM", "MMMM", "ddd", "dddd", "g", "gg") for t in tokens):
                 # name fields are in scope only for the 12-month tables of the culture: ISO/Gregorian dates
                 v = v.with_calendar(CalendarSystem.iso) if v.calendar.id not in ("ISO", "Gregorian") else v
+            if not builtin and rnd.random() < 0.7:
+                v = fit_value(typ, tokens, v, pat, rnd)
             p = pat
             ev = {"op": "rt", "type": typ, "pattern": pname, "tokens": tokens, "culture": culture.name if culture is not None else "",
                   "roundtrip_builtin": builtin, "ampm_ok": ampm_ok, "text_ok": text_ok, "value": fields(typ, v),
@@ -252,6 +355,7 @@ def run(ctx: Ctx):
     q = ctx.quick
     ctx.mc("MC_PatternSemantics", MC_CFG, workers="auto", tag="reference_semantics")
     total = 12_000 if q else 300_000
+    ctx.notes["culture_classes"] = {k: len(v) for k, v in textgen.culture_classes().items()}   # computed here, inherited by the workers
     parts = parallel_map(gen, [(ctx.seed * 43 + k, total // 16) for k in range(16)])
     pats = {(e["type"], e["pattern"], e["culture"]) for p in parts for e in p}
     ctx.notes["patterns"] = len(pats)
